@@ -764,6 +764,10 @@ def enum_corpus(tier, seed):
     add(2, [0, 1, 2, 3], exhaustive="conditional", cfg=[None, "off_doc", None, "on_doc"], tag="conditional, cfg attributes preceded by doc comments")
     add(1, [0, 1], exhaustive="conditional", cfg=["on_doc", "off_doc"], tag="conditional u1 with documented cfg variants, one inactive")
     add(8, [1, 1, 200], exhaustive="conditional", cfg=["off_doc", "on", None], tag="conditional native storage, first alternative (documented) off")
+    for (bits, spec_) in ((2, [("Idle", 0, None), ("Burst", 1, "on"), ("Burst", 2, "off"), ("Stop", 3, None)]), (2, [("Idle", 0, None), ("Burst", 1, "off"), ("Burst", 2, "on")]), (3, [("A", 7, "on"), ("A", 0, "off"), ("B", 1, None), ("A", 5, "off")])):
+        e = EnumDef("E", bits, list(spec_), "conditional")
+        e.tag = f"conditional u{bits}: the same variant NAME declared under exclusive cfgs with different discriminants {spec_}"
+        Es.append(e)
     return Es
 
 
@@ -1092,6 +1096,12 @@ def h_untouched(L, f):
     b.append("let mut z = x;")
     b.append(H.call_set(f, "z", i, "v"))
     b.append(f'assert!(({H.raw_of(L, "z")} & !m) == (r128 & !m), "VERIF set_{f.name} changed a bit the field does not name");')
+    if f.ty.kind == "uint":
+        # unambiguous even when a bit is named twice: writing all-zeros clears every named bit, all-ones sets them
+        zero = H.uint_from_u128(f.ty.width, "0u128")
+        ones = H.uint_from_u128(f.ty.width, f"{mask(f.ty.width):#x}u128")
+        b.append(f'assert!(({H.raw_of(L, H.call_with(f, "x", i, zero))} & m) == 0, "VERIF writing zero leaves a named bit set");')
+        b.append(f'assert!(({H.raw_of(L, H.call_with(f, "x", i, ones))} & m) == m, "VERIF writing all-ones leaves a named bit clear");')
     b.append("vend!();")
     return Harness(f"untouched_{f.name}", "\n".join(b), "pass", "untouched_bits", "C12", f.name, ())
 
